@@ -38,7 +38,7 @@ CLAIMED = {
         "DESIGN.md §5 C17",
     ),
     "C18": (
-        "runtime relation monitor: f64 trigonometry and exact f32 relations as oracle for unit conversions, operators, wrap (interval membership + congruence modulo the f32 interval length), polar/spherical coordinate changes in both compositions",
+        "runtime relation monitor: f64 trigonometry and exact f32 relations as oracle for unit conversions, operators, wrap (interval membership + congruence modulo the f32 interval length), polar/spherical coordinate changes in both compositions; run on the std build (rfmon) and, for the clauses that go through the float helpers, on the libm and mm builds (rffp)",
         "≥ 5·10^6 (thorough 5·10^8) cases: angles over ±1e4 rad incl. quarter-turn multiples ±1 ulp — degrees/radians/turns mutually consistent (1e-6), operators/min/max/clamp equal to the same f32 operation on the magnitude (within 8 ulps; bit-identical counted), sin_cos ≡ (sin, cos), sin²+cos² = 1, sin/cos vs f64; wrap into intervals of any position and width 1e-3..100 rad — result inside [min,max] and congruent to the input with a tolerance scaled by the operand magnitudes; vectors over 1e-6..1e6 incl. axis-aligned and near-axis — r = length, azimuth in [-180°,180°], altitude in [-90°,90°], both compositions inverse.",
         "wrap judged for max > min; azimuth tolerance scaled near the poles where it is ill-conditioned.",
         "DESIGN.md §5 C18",
@@ -198,8 +198,8 @@ def main():
             {
                 "name": "rffp",
                 "path": "/verif/fpcfg",
-                "serves_properties": ["C20"],
-                "kind_free_text": "the C20 monitor, built eight times against retrofire-core (features none | libm | mm | std × a checking profile with debug assertions and overflow checks and a plain release profile) into separate target directories (so cargo cannot unify the features); shares the rftk toolkit (/verif/tk) with rfmon",
+                "serves_properties": ["C18", "C20"],
+                "kind_free_text": "the C20 monitor (and the per-backend part of C18: wrap, sin_cos, polar/spherical on the libm and mm builds), built eight times against retrofire-core (features none | libm | mm | std × a checking profile with debug assertions and overflow checks and a plain release profile) into separate target directories (so cargo cannot unify the features); shares the rftk toolkit (/verif/tk) with rfmon",
             },
             {
                 "name": "check",
